@@ -276,9 +276,41 @@ def structures(tier, seed, focus="all"):
         out.append(dict(sources=[("c", [("s", "a", m1, r1, "g1"), ("s", "b", m2, r2, "g2"), ("c", [("s", "e", 1, "static", "g1")])]),
                                  ("s", "c", m2, r2, "g1"), ("c", [("s", "d", 2, "var", "g2")])],
                         sensors=[("k", mk, rk, px, "right"), ("j", 2, "var", px, "right")]))
+    # family C: every arrangement of <= 3 (thorough: <= 4) top-level entries from {source, collection of 1/2/3 leaves, nested collection}
+    fam_c = []
+    kinds = ("s", "c1", "c2", "c3", "cn")
+    cnt = [0]
+
+    def entry(kd):
+        cnt[0] += 1
+        nm = f"x{cnt[0]}"
+        mr = [(1, "static"), (2, "var"), (3, "var")][cnt[0] % 3]
+        g = ["g1", "g2"][cnt[0] % 2]
+        if kd == "s":
+            return ("s", nm, mr[0], mr[1], g)
+        if kd == "cn":
+            return ("c", [("s", nm + "a", 1, "static", "g1"), ("c", [("s", nm + "b", mr[0], mr[1], "g2")])])
+        return ("c", [("s", f"{nm}{i}", mr[0] if i == 0 else 1, mr[1] if i == 0 else "static", ["g1", "g2"][i % 2]) for i in range(int(kd[1]))])
+
+    for L in (1, 2, 3, 4) if tier == "thorough" else (1, 2, 3):
+        for combo in itertools.product(kinds, repeat=L):
+            cnt[0] = 0
+            fam_c.append(dict(sources=[entry(kd) for kd in combo], sensors=[("k", 2, "var", (2, 3), "right")]))
+    # family D: sensor orientation paths that return to their start (first == last, different in between), several pixel shapes
+    fam_d = []
+    for (m1, r1), px, hand in itertools.product([(1, "static"), (3, "var"), (5, "loop")], pixs, ("right", "left")):
+        fam_d.append(dict(sources=[("s", "a", m1, r1, "g1"), ("s", "b", 1, "id", "g2")], sensors=[("k", 5, "loop", px, hand)]))
+        fam_d.append(dict(sources=[("s", "a", m1, r1, "g1")], sensors=[("k", 3, "loop", px, hand), ("j", 4, "loop", px, "right")]))
     if tier == "quick":
-        idx = rng.permutation(len(out))[:260] if focus == "all" else rng.permutation(len(out))[:120]
+        idx = rng.permutation(len(out))[:200] if focus == "all" else rng.permutation(len(out))[:100]
         out = [out[i] for i in sorted(idx)]
+        idc = sorted(rng.permutation(len(fam_c))[:70])
+        idd = sorted(rng.permutation(len(fam_d))[:16])
+        # all arrangements of length <= 2 always, a sample of the longer ones
+        short = [f for f in fam_c if len(f["sources"]) <= 2]
+        out = out + short + [fam_c[i] for i in idc if len(fam_c[i]["sources"]) > 2] + [fam_d[i] for i in idd]
+    else:
+        out = out + fam_c + fam_d
     return out
 
 
